@@ -565,6 +565,7 @@ class SCCWriter(BaseWriter):
             code_time_microseconds = code_words * MICROSECONDS_PER_CODEWORD
             code_start = start - code_time_microseconds
             if index == 0:
+                codes[index] = (code, code_start, end)
                 continue
             previous_code, previous_start, previous_end = codes[index - 1]
             if previous_end + 3 * MICROSECONDS_PER_CODEWORD >= code_start:
